@@ -19,6 +19,7 @@ import BB.Oracle.BufGate
 import BB.Oracle.BufConc
 import BB.Oracle.CleanGate
 import BB.Oracle.Lifecycle
+import BB.Oracle.Exclusive
 
 open BB.Oracle
 
@@ -37,7 +38,8 @@ def families : List (String × Fam) := [
   ("bufgate", BufGateFam.fam),
   ("bufconc", BufConcFam.fam),
   ("cleangate", CleanGateFam.fam),
-  ("lifecycle", LifecycleFam.fam)
+  ("lifecycle", LifecycleFam.fam),
+  ("exclusive", ExclusiveFam.fam)
 ]
 
 structure OAcc (σ : Type) where
